@@ -779,3 +779,28 @@ Theorem startup_rule_pf c st id0 rs ss b :
             files (boot c st id0 rs ss b) = [Status Sync id0] /\ next_id (boot c st id0 rs ss b) = id0 + 1
   end.
 Proof. intros Hc. unfold boot. rewrite Hc. destruct st as [x|]; cbn; repeat split; reflexivity. Qed.
+
+(* ====================================================================================================
+   A new manager on the same storage (leader change), with a storage fault at the status load
+   ==================================================================================================== *)
+(* a failed load of the persisted status fails the creation and touches nothing at all *)
+Theorem restart_failed_load_pf s f : cf_dr (cfg s) = true -> restart s true f = (s, RErr).
+Proof. intros H. unfold restart. rewrite H. reflexivity. Qed.
+(* a persisted status is served as it is: no id is allocated, no file goes out, nothing is saved *)
+Theorem restart_serves_stored_pf s f x s' r :
+  cf_dr (cfg s) = true -> stored s = Some x -> restart s false f = (s', r) ->
+  r = ROk /\ served s' = Some x /\ stored s' = Some x /\ files s' = files s /\ next_id s' = next_id s /\ cur_key s' = "" /\ cur_cnt s' = 0.
+Proof. intros H E. unfold restart. rewrite H, E. cbn. intros R; inv R. cbn. repeat split; auto. Qed.
+(* the manager initialises itself (allocates an id, hands out a file) ONLY when the load succeeded and found nothing *)
+Theorem restart_initialises_only_when_nothing_stored_pf s lf f s' r :
+  restart s lf f = (s', r) -> (files s' <> files s \/ next_id s' <> next_id s \/ stored s' <> stored s) ->
+  cf_dr (cfg s) = true /\ lf = false /\ stored s = None.
+Proof.
+  unfold restart. destruct (cf_dr (cfg s)); cbn [negb].
+  2:{ intros H; inv H. cbn. intros [A|[A|A]]; exfalso; apply A; reflexivity. }
+  destruct lf.
+  { intros H; inv H. intros [A|[A|A]]; exfalso; apply A; reflexivity. }
+  destruct (stored s) as [x|] eqn:E.
+  { intros H; inv H. cbn. rewrite E. intros [A|[A|A]]; exfalso; apply A; reflexivity. }
+  intros _ _. repeat split; reflexivity.
+Qed.
